@@ -1,5 +1,5 @@
 """C06 — proto3 defaults and field presence."""
-AREAS = ["varint", "single", "msg", "msgload"]
+AREAS = ["varint", "single", "msg", "msgload", "msgattr"]
 LEVEL = "other"
 EXPLANATION = (
     "dump is proved to emit EMITC per readable field; lemma C06_EMISSION_FOLLOWS_PRESENCE proves EMITC == EMITP, the "
